@@ -111,6 +111,68 @@ def run(ctx):
     ctx.sample({"input": gs[0]["inputs"][0], "row": gs[0]["rows"][0] if gs[0]["rows"] else None})
     pipe.eval_pipeline_cases(ctx, bs + gs, "c03")
     h2_check(ctx, bs + gs, "c03h2")
+    impute_flow(ctx, bs + gs, "c03imp")
+
+
+def impute_flow(ctx, batches, name):
+    """impute_reaction's control flow (Model/Impute.v) against every recorded call: with what build_compounds + merge, the
+    standardizers and is_carbon_balanced answered in that call, the model returns the call's result or its exception text; the
+    carbon label the call saw is the label of the reaction it imputed (carbon_of with the recorded atom counts).  This is what
+    turns C03's oracle facts H1 and H3 into theorems (Proofs/ImputeProofs.v)."""
+    HDR = pipe.PIPE_HDR.replace("Model.Pipeline ", "Model.Pipeline Model.Impute ")
+    DEFS = """
+Definition imp_eqb (a b : imp_result) : bool :=
+  match a, b with ImpOk m r, ImpOk m' r' => String.eqb m m' && list_eqb String.eqb r r' | ImpFail x, ImpFail y => String.eqb x y | _, _ => false end.
+Definition clabel_eqb (a b : clabel) : bool := match a, b with CBalanced, CBalanced | CProducts, CProducts | CReactants, CReactants => true | _, _ => false end.
+Definition icase (issue : string) (c : clabel) (rxn : string) (m : outcome2 (string * list string)) (sin : string) (sout : outcome2 string)
+    (carg : string) (cb : bool) (cc : list (string * Z)) (e : imp_result) : bool :=
+  imp_eqb (impute_reaction {| merged_raw := fun _ => m; standardized := fun x => if String.eqb x sin then sout else Fail2 "UNREACHED";
+                              carbon_balanced_after := fun x => if String.eqb x carg then cb else false |} issue c rxn) e
+  && clabel_eqb (carbon_of (mk [] [] [] cc [] [] [] []) rxn) c.
+"""
+    LAB = {"balanced": "CBalanced", "products": "CProducts", "reactants": "CReactants"}
+    exprs, meta, seen = [], [], set()
+    for b in batches:
+        if b["conflicts"] or "impute_fine" not in b["tables"]:
+            continue
+        res = {k: v for k, v in b["tables"]["impute"]}
+        cc = {k: v for k, v in b["tables"]["ccount"]}
+        for k, f in b["tables"]["impute_fine"]:
+            if k in seen or k not in res:
+                continue
+            seen.add(k)
+            v = res[k]
+            try:
+                if not isinstance(f["issue"], str) or f["carbon"] not in LAB:
+                    ctx.count("impute_flow", "skipped_non_string_issue_or_label"); continue
+                if v[0] == "ok":
+                    if not v[1].startswith(k + "."):
+                        ctx.mismatch("impute_reaction returns '{reaction}.{merged}'", k, v[1], None); continue
+                    e = "(ImpOk %s %s)" % (cstr(v[1][len(k) + 1:]), clist(v[2], cstr))
+                else:
+                    e = "(ImpFail %s)" % cstr(v[1])
+                m = f["merged"]
+                mt = "(Fail2 \"UNREACHED\")" if m is None else ("(Ok2 (%s, %s))" % (cstr(m[1]), clist(m[2], cstr)) if m[0] == "ok" else "(Fail2 %s)" % cstr(m[1]))
+                st = f["std"]
+                sin = cstr(st[0]) if st else cstr("")
+                sout = "(Fail2 \"UNREACHED\")" if not st else ("(Ok2 %s)" % cstr(st[2]) if st[1] == "ok" else "(Fail2 %s)" % cstr(st[2]))
+                cb = f["cbal"]
+                toks = sorted({t for side in k.split(">>") for t in side.split(".")})
+                cct = clist([t for t in toks if t in cc], lambda t: cpair(cstr(t), cz(cc[t])))
+                exprs.append("icase %s %s %s %s %s %s %s %s %s %s" % (cstr(f["issue"]), LAB[f["carbon"]], cstr(k), mt, sin, sout,
+                                                                   cstr(cb[0]) if cb else cstr(""), cbool(cb[1]) if cb else "false", cct, e))
+                meta.append((k, f, v))
+                ctx.count("impute_flow", "ok" if v[0] == "ok" else ("previous_issue" if f["issue"] != "" else ("deficit" if f["carbon"] == "reactants" and m and m[0] == "ok" else
+                          ("merge_failed" if m and m[0] != "ok" else ("standardizer_failed" if st and st[1] != "ok" else "carbon_check_failed")))))
+            except (TypeError, ValueError):
+                ctx.count("impute_flow", "skipped_unrenderable")
+    sh("timeout 900 make -j%d Model/Impute.vo Model/Tables.vo 2>&1" % NPROC, cwd=COQ)
+    bad, errors = eval_cases(name, HDR, DEFS, exprs, ctx.work, shard=300)
+    for fn, o in errors:
+        ctx.broken.append({"what": "case file did not evaluate", "where": fn, "detail": o})
+    for i in bad:
+        ctx.mismatch("impute_reaction vs Model/Impute.impute_reaction (stage answers of the recorded call)", meta[i][0], meta[i][2], meta[i][1])
+    ctx.extra["impute_calls_checked_in_coq"] = len(exprs)
 
 
 def h2_check(ctx, batches, name):
